@@ -73,7 +73,24 @@ func C13(tier common.Tier) int {
 				for _, mix := range []e1.UseMix{{TestOnly: true, Allow: 4}, {TestOnly: true, Allow: 1, AnnOrder: 1}} {
 					for _, encl := range []e1.UseEncl{e1.UEPlain, e1.UEPkgVar, e1.UEMethQ} {
 						for _, file := range []int{0, 1} {
-							seqs(all, depth+1, func(st []int) {
+							// all sequences of length <= 2 over the whole alphabet; thorough adds length 3 over the core statements
+							var coreIdx []int
+							for _, i := range all {
+								if useSites[i].Core {
+									coreIdx = append(coreIdx, i)
+								}
+							}
+							visit := func(emit func(st []int)) {
+								seqs(all, 2, emit)
+								if depth > 1 {
+									seqs(coreIdx, 3, func(st []int) {
+										if len(st) == 3 {
+											emit(st)
+										}
+									})
+								}
+							}
+							visit(func(st []int) {
 								idx++
 								if !sh.Mine(idx) {
 									return
